@@ -5,18 +5,25 @@ package main
 import (
 	"crypto/sha1"
 	"encoding/hex"
+	"flag"
 	"fmt"
+	"io"
 	"os"
 	"os/exec"
 	"path/filepath"
 	"sort"
 	"strings"
+
+	"github.com/VKCOM/tl/internal/pure"
+	"github.com/VKCOM/tl/internal/puregen"
+	"github.com/VKCOM/tl/internal/puregen/gengo"
 )
 
 func init() {
 	ops["tool.gen"] = opGen
 	ops["tool.genbuild"] = opGenBuild
 	ops["tool.det"] = opDet
+	ops["tool.detrep"] = opDetRep
 }
 
 // option sets of the Go generator explored by C14 / C15 (pkgPath is added per case)
@@ -321,4 +328,91 @@ func opDet(args []string) string {
 		}
 	}
 	return first
+}
+
+// ---------------------------------------------------------------- repeated generation (C15, --split-internal cycles)
+
+// the Go generator of cmd/tl2gen (runMain with --language=go), in-process
+func genGoInProcess(args []string, roots []string) error {
+	opt := puregen.Options{ErrorWriter: io.Discard}
+	fs := flag.NewFlagSet("tl2gen", flag.ContinueOnError)
+	fs.SetOutput(io.Discard)
+	opt.Bind(fs, "")
+	if err := fs.Parse(args); err != nil {
+		return err
+	}
+	if err := opt.Validate(); err != nil {
+		return err
+	}
+	kernel := pure.NewKernel(&opt.Kernel)
+	if err := kernel.AddFilesFromPaths(roots); err != nil {
+		return err
+	}
+	return gengo.Generate(kernel, &opt)
+}
+
+// tool.detrep <optset> <hex schema>
+// Go generator only: 8 runs in separate processes (GOMAXPROCS 1/2/16 cycling, input files in rotating order) and 8 runs
+// in-process; within each group the output trees (file names + content hashes) must be identical.  A per-run divergence
+// of probability 1/2 escapes one group with probability 2^-7.
+func opDetRep(args []string) string {
+	if len(args) != 2 {
+		return "bad-op"
+	}
+	var optset int
+	if _, err := fmt.Sscanf(args[0], "%d", &optset); err != nil || optset < 0 || optset >= len(goOptSets) {
+		return "bad-op"
+	}
+	text, ok := unhexText(args[1])
+	if !ok {
+		return "bad-op"
+	}
+	cdir := caseDir()
+	defer os.RemoveAll(cdir)
+	files := writeSchemas(filepath.Join(cdir, "in"), text)
+	procs := []string{"1", "16", "2", "16", "4", "1", "8", "16"}
+	var first [2]string
+	for group := 0; group < 2; group++ {
+		for run := 0; run < 8; run++ {
+			roots := append(append([]string{}, files[run%len(files):]...), files[:run%len(files)]...)
+			out := filepath.Join(cdir, fmt.Sprintf("out%d_%d", group, run))
+			a := []string{"--language=go", "--outdir=" + out, "--pkgPath=verif.local/h/gen/tl"}
+			a = append(a, goOptSets[optset]...)
+			var v string
+			if group == 0 {
+				v, _ = runEnv(os.Getenv("VERIF_TL2GEN"), []string{"GOMAXPROCS=" + procs[run]}, append(a, roots...)...)
+			} else {
+				func() {
+					defer func() {
+						if r := recover(); r != nil {
+							v = "panic"
+						}
+					}()
+					if err := genGoInProcess(a, roots); err != nil {
+						v = "err"
+					} else {
+						v = "ok"
+					}
+				}()
+			}
+			if v == "crash" {
+				return v
+			}
+			sig := v
+			if v == "ok" {
+				h, n := hashTree(out)
+				sig = fmt.Sprintf("ok %d %s", n, h)
+			}
+			_ = os.RemoveAll(out)
+			if run == 0 {
+				first[group] = sig
+			} else if sig != first[group] {
+				return fmt.Sprintf("diff group%d run%d %s vs %s", group, run, strings.ReplaceAll(sig, " ", "_"), strings.ReplaceAll(first[group], " ", "_"))
+			}
+		}
+	}
+	if strings.SplitN(first[0], " ", 2)[0] != strings.SplitN(first[1], " ", 2)[0] {
+		return "diff verdict cli=" + strings.ReplaceAll(first[0], " ", "_") + " inproc=" + strings.ReplaceAll(first[1], " ", "_")
+	}
+	return first[0]
 }
